@@ -92,7 +92,7 @@ func c17Program(r *rng.R, fuzz bool) (string, []c17Route) {
 		routes = append(routes, rt)
 		tag := ""
 		if rt.Tag != "" {
-			tag = rt.Tag + " "
+			tag = rt.Tag + r.Pick([]string{" ", " ", "  "}) // one or two blanks before the operation id
 		}
 		if rt.Yaml {
 			fmt.Fprintf(&b, "// swagger:operation %s %s %s%s\n//\n// Operation %d.\n//\n", rt.Method, rt.Path, tag, rt.ID, i)
